@@ -134,20 +134,51 @@ package walletdb
 //@ iface ReadBucket.ForEach(b, fn) (err)
 //@   trusted
 //@   ensures fault_reported: wfault && !old(wfault) ==> err != nil
+// call log of the managed-transaction methods of a DB: how many such calls were
+// made, and kind (1 Update, 2 View, 3 Batch), receiver and function of the last
+// one; dbMgdRet(n) = what the n-th such call returned
+//@ ghost dbMgdCalls Int
+//@ ghost dbMgdKind Int
+//@ ghost dbMgdRecv Iface
+//@ ghost dbMgdF Int
+//@ spec func dbMgdRet(n Int) Iface
 //@ iface DB.Update(db, f, reset) (err)
 //@   trusted
+//@   modifies dbMgdCalls, dbMgdKind, dbMgdRecv, dbMgdF
 //@   ensures fault_reported: wfault && !old(wfault) ==> err != nil
+//@   ensures logged: dbMgdCalls == old(dbMgdCalls) + 1 && dbMgdKind == 1 && dbMgdRecv == db && dbMgdF == f && err == dbMgdRet(old(dbMgdCalls))
 //@ iface DB.View(db, f, reset) (err)
 //@   trusted
+//@   modifies dbMgdCalls, dbMgdKind, dbMgdRecv, dbMgdF
 //@   ensures fault_reported: wfault && !old(wfault) ==> err != nil
-//@ ghost dbUpdates Int
+//@   ensures logged: dbMgdCalls == old(dbMgdCalls) + 1 && dbMgdKind == 2 && dbMgdRecv == db && dbMgdF == f && err == dbMgdRet(old(dbMgdCalls))
+//@ iface BatchDB.Batch(db, f) (err)
+//@   trusted
+//@   modifies dbMgdCalls, dbMgdKind, dbMgdRecv, dbMgdF
+//@   ensures fault_reported: wfault && !old(wfault) ==> err != nil
+//@   ensures logged: dbMgdCalls == old(dbMgdCalls) + 1 && dbMgdKind == 3 && dbMgdRecv == db && dbMgdF == f && err == dbMgdRet(old(dbMgdCalls))
+// the reset functions handed to the backend do nothing
+//@ func Update$1()
+//@   property C11
+//@   ensures noop: dbMgdCalls == old(dbMgdCalls) && wfault == old(wfault) && DBhas == old(DBhas) && DBval == old(DBval) && DBlive == old(DBlive)
+//@ func View$1()
+//@   property C11
+//@   ensures noop: dbMgdCalls == old(dbMgdCalls) && wfault == old(wfault) && DBhas == old(DBhas) && DBval == old(DBval) && DBlive == old(DBlive)
+// walletdb.Update / View / Batch delegate to the backend exactly once
 //@ func Update(db, f) (err)
-//@   trusted
-//@   modifies dbUpdates
-//@   ensures counted: dbUpdates == old(dbUpdates) + 1
+//@   property C11 C10
+//@   requires nonnil: db != nil
 //@   ensures fault_reported: wfault && !old(wfault) ==> err != nil
+//@   ensures delegates: dbMgdCalls == old(dbMgdCalls) + 1 && dbMgdKind == 1 && dbMgdRecv == db && dbMgdF == f && err == dbMgdRet(old(dbMgdCalls))
 //@ func View(db, f) (err)
-//@   trusted
+//@   property C11 C10
+//@   requires nonnil: db != nil
+//@   ensures fault_reported: wfault && !old(wfault) ==> err != nil
+//@   ensures delegates: dbMgdCalls == old(dbMgdCalls) + 1 && dbMgdKind == 2 && dbMgdRecv == db && dbMgdF == f && err == dbMgdRet(old(dbMgdCalls))
+//@ func Batch(db, f) (err)
+//@   property C11
+//@   ensures delegates_or_refuses: (dbMgdCalls == old(dbMgdCalls) && err != nil)
+//@       || (dbMgdCalls == old(dbMgdCalls) + 1 && dbMgdKind == 3 && dbMgdRecv == db && dbMgdF == f && err == dbMgdRet(old(dbMgdCalls)))
 //@   ensures fault_reported: wfault && !old(wfault) ==> err != nil
 
 // top-level buckets hang off the root id 0
